@@ -141,18 +141,24 @@ bool Hist::opFrame(int how) {
     int dev = 0;
     int forceSub = -1;
     if (!wild && aused > 0 && prev.h.sub == 0) { if (rng.chance(55)) return false; forceSub = rng.range(1, 2); }   // channels declared but the header ratio is 0 (no analog rate, or a rate below half the point rate)   // channels declared but no analog rate yet: the README frame would carry no sub-frames (undocumented shape)
+    bool contentless = false;
     if (used == 0 && aused == 0) {
         if (float0(prev, "POINT", "RATE") == 0.0f && !wild) return false;
-        if (n == 0) dev = 14; else return false;
+        if (prev.h.sub > 0 && how == 0 && o.profile == "c08" && rng.chance(40)) contentless = true;   // the README frame of an object with nothing declared: empty sub-frames only
+        else if (n == 0) dev = 14; else return false;
     }
-    if (rng.chance(wild ? 45 : 28)) { static const int doc[] = {1, 2, 3, 4, 5, 6, 7}; static const int wl[] = {8, 9, 10, 11, 12, 13, 14};
+    if (!contentless && rng.chance(wild ? 45 : 28)) { static const int doc[] = {1, 2, 3, 4, 5, 6, 7}; static const int wl[] = {8, 9, 10, 11, 12, 13, 14};
         dev = (wild && rng.chance(50)) ? wl[rng.below(7)] : doc[rng.below(7)];
         if (!wild && used == 0 && dev >= 1 && dev <= 4) dev = 0; if (!wild && aused == 0 && (dev == 5 || dev == 6)) dev = 0; if (used == 0 && aused == 0 && n == 0 && !wild) dev = 14; }
     if (forceSub >= 0 && dev != 0 && dev != 5 && dev != 6) dev = rng.chance(50) ? 5 : 6;
+    bool undeclaredPlusBadAnalogs = (!wild && used == 0 && aused > 0 && prev.h.sub > 0 && n == 0 && float0(prev, "POINT", "RATE") != 0.0f && rng.chance(12));   // new points arrive together with a refused analog part
     if (!wild && how == 1 && used == 0 && aused > 0 && rng.chance(15)) dev = 14;                       // undeclared points arrive through a replace
     if (!wild && how == 1 && n == 1 && prev.h.sub > 0 && rng.chance(10)) dev = rng.chance(50) ? 8 : 9;  // the only stored frame is replaced by one with another sub-frame count
+    if (undeclaredPlusBadAnalogs) dev = rng.chance(50) ? 5 : 6;
+    if (contentless) { dev = 0; offSpec = true; }   // the header cannot count frames that hold nothing: C05 is not judged in such histories
     std::string devName; SFrame sub; Frame f = buildFrame(dev, &devName, &sub, forceSub);
     if (forceSub >= 0) devName += "+forced_subframes";
+    if (undeclaredPlusBadAnalogs) { std::vector<std::string> none; size_t k = (size_t)rng.range(1, 3); Points extra; for (size_t q = 0; q < k; ++q) { SPoint ip; std::string nm = "U" + std::to_string((unsigned long long)q) + "_" + std::to_string((long long)rng.below(1000)); extra.point(mkPoint(*this, nm, &ip)); sub.pts.push_back(ip); } f.add(extra); devName += "+undeclared_points"; }
     size_t idxArg = SIZE_MAX, target;
     std::string opn;
     if (how == 0) { opn = "frame_append"; target = n; }
@@ -312,7 +318,9 @@ bool Hist::opDeclarePoint() {
 bool Hist::opDeclareChannel() {
     std::vector<std::string> labels = labelsOf(prev, "ANALOG");
     size_t n = prev.frames.size();
-    if (!wild && n > 0 && (hasGaps(prev) || prev.h.sub == 0 || !subsUniform(prev))) return false;   // (a gap frame has no sub-frames to receive a channel)
+    bool chOverGaps = n > 0 && hasGaps(prev);
+    if (!wild && n > 0 && (prev.h.sub == 0 || (!subsUniform(prev) && !chOverGaps))) return false;
+    if (!wild && chOverGaps && !rng.chance(30)) return false;       // a gap frame has no sub-frames to receive a channel: what happens is documented neither way (C07 not judged), but a throw must leave the object unchanged
     if (labels.size() >= 8 && !wild) return false;
     bool dup = !labels.empty() && rng.chance(n > 0 ? 15 : (wild ? 15 : 0));
     std::string name = dup ? labels[rng.below(labels.size())] : freshName("A", labels);
@@ -320,7 +328,8 @@ bool Hist::opDeclareChannel() {
     std::string arg = padded ? name + std::string((size_t)rng.range(1, 3), ' ') : name;
     log.pre("analog"); Outcome oc; VF_TRY(oc, obj->analog(arg));
     log.ev("declare_channel", "name=\"" + esc(arg) + "\" frames=" + std::to_string((unsigned long long)n), oc); bump("op:declare_channel");
-    if (!wild) {
+    if (!wild && chOverGaps) { if (!oc.threw) offSpec = true; }
+    else if (!wild) {
         if (n > 0) {
             bump("c07_column_calls");
             if (dup && !oc.threw) log.viol("C07", "column/existing_name_accepted/declare_channel", "analog(\"" + esc(arg) + "\") accepted although the name exists");
@@ -384,7 +393,9 @@ bool Hist::opPointColumn() {
 bool Hist::opChannelColumn() {
     size_t n = prev.frames.size(); size_t nsub = prev.h.sub;
     bool emptyData = (n == 0);     // nothing stored yet: only the documented refusal 'nothing supplied' can be exercised
-    if (!wild && !emptyData && (hasGaps(prev) || nsub == 0 || !subsUniform(prev))) return false;
+    bool chOverGaps = !emptyData && hasGaps(prev);
+    if (!wild && !emptyData && (nsub == 0 || (!subsUniform(prev) && !chOverGaps))) return false;
+    if (!wild && chOverGaps && !rng.chance(30)) return false;
     std::vector<std::string> labels = labelsOf(prev, "ANALOG");
     if (labels.size() >= 10 && !wild) return false;
     // 0 valid, 1 frames-1, 2 frames+1, 3 sub-1, 4 sub+1, 5 no channels, 6 existing name, 7 second duplicates existing, 8 second duplicates first, (wild) 9 no frames
@@ -409,7 +420,8 @@ bool Hist::opChannelColumn() {
     std::ostringstream a; a << "dev=" << (ragged ? "ragged_subframe" : dn[dev]) << " columns=" << k << " supplied=" << nf << "x" << ns << " n=" << n << " sub=" << nsub;
     log.pre("analog"); Outcome oc; VF_TRY(oc, obj->analog(frames));
     log.ev("channel_column", a.str(), oc); bump("op:channel_column"); bump(std::string("coldev:") + dn[dev] + (oc.threw ? ":refused" : ":accepted"));
-    if (!wild) {
+    if (!wild && chOverGaps) { if (!oc.threw) offSpec = true; }
+    else if (!wild) {
         bump("c07_column_calls");
         bool defect = (dev >= 1 && dev <= 8) || (dev == 9 && emptyData);
         if (defect && !oc.threw) log.viol("C07", std::string("column/defect_accepted/channel_column/") + dn[dev], std::string("analog(frames) accepted although ") + dn[dev]);
